@@ -6,8 +6,6 @@ type C17Case struct{}
 
 func (c *C17Case) sample() any { return nil }
 
-func genC03(seed uint64, run int, tier string) *Case { return nil }
 func genC17(seed uint64, run int, tier string) *Case { return nil }
-func execC03(t *testing.T, c *Case) *Verdict         { return &Verdict{Infra: "not built"} }
 func execC17(t *testing.T, c *Case) *Verdict         { return &Verdict{Infra: "not built"} }
 func minimiseC17(m *minimiser, cur **Case)           {}
